@@ -20,8 +20,14 @@ C09_MONITORS = {"next_owner", "bounded_wait"}
 ALL_FEATURES = ["err", "rty", "stall", "lock", "cti", "bte"]
 
 
-def gen_arb(rng, tier):
+def gen_arb(rng, tier, idx=None, soak_in_quick=True):
     n = rng.choice([1, 2, 2, 3, 3, 4, 4, 5, 6, 7, 8, 9]) if rng.random() < 0.94 else rng.choice([12, 16, 17])
+    soak = None
+    if idx is not None and (idx % (480 if tier == "quick" else 600)) in (3, 5) and (tier != "quick" or soak_in_quick):
+        # soak scenarios (one of each per quick run, ten per thorough run): anything that counts cycles or transfers
+        # behind the scenes (a watchdog, a fairness time-out) needs tens of thousands of cycles to show
+        soak = "soak_unanswered" if idx % 2 else "soak_burst"
+        n = rng.choice([2, 3])
     dw = rng.choice([8, 16, 32, 64])
     gran = rng.choice([g for g in (8, 16, 32, 64) if g <= dw])
     afeat = [f for f in ALL_FEATURES if rng.random() < 0.5]
@@ -60,6 +66,25 @@ def gen_arb(rng, tier):
         case["scenario"] = "slow_target"
         intrs[rng.randrange(n)]["behaviour"] = "patient"
         case["cycles"] = rng.choice([900, 1500])
+    if soak == "soak_unanswered":
+        # one transfer stays unanswered for more than 2**16 cycles (flash erase, a bridge to a slow bus)
+        case.update(scenario="soak_unanswered", cycles=66600, slots=None)
+        case.pop("slots")
+        for d in intrs:
+            d["behaviour"] = "greedy"
+        intrs[rng.randrange(n)]["behaviour"] = "patient"
+    elif soak == "soak_burst":
+        # one owner runs a locked burst of a few thousand acknowledged transfers (a DMA block) while others request
+        case.update(scenario="soak_burst", cycles=2700)
+        case.pop("slots", None)
+        if "lock" not in afeat:
+            afeat.append("lock")
+        for d in intrs:
+            d["behaviour"] = "greedy"
+        k = rng.randrange(n)
+        intrs[k]["behaviour"] = "burster"
+        if "lock" not in intrs[k]["features"]:
+            intrs[k]["features"].append("lock")
     return case
 
 
@@ -198,6 +223,15 @@ def run_arb_case(case, judged):
                     r[f] = v
             st["held"][i] = r
             return r
+        if beh == "burster":
+            r = {"adr": (rng.getrandbits(aw) >> idx_bits << idx_bits | i) & ((1 << aw) - 1), "dat_w": bits(rng, dw),
+                 "sel": bits(rng, nsel), "we": rng.getrandbits(1), "cyc": 1, "stb": 1, "lock": 1}
+            for f, v in (("cti", 0), ("bte", 0)):
+                if f in feat:
+                    r[f] = v
+            st["hold"][i] = 2500
+            st["held"][i] = r
+            return r
         if beh == "patient":
             # holds its request until answered, however long the target takes
             r = {"adr": (rng.getrandbits(aw) >> idx_bits << idx_bits | i) & ((1 << aw) - 1), "dat_w": bits(rng, dw),
@@ -205,7 +239,7 @@ def run_arb_case(case, judged):
             for f, v in (("lock", 0), ("cti", 0), ("bte", 0)):
                 if f in feat:
                     r[f] = v
-            st["hold"][i] = rng.choice([20, 280, 300, 600])
+            st["hold"][i] = rng.choice([20, 280, 300, 600]) if case.get("scenario") != "soak_unanswered" else 70000
             st["held"][i] = r
             return r
         r = {"adr": (rng.getrandbits(aw) >> idx_bits << idx_bits | i) & ((1 << aw) - 1),
@@ -257,7 +291,15 @@ def run_arb_case(case, judged):
             for f in ("err", "rty", "stall"):
                 if f in afeat:
                     resp[f] = rng.getrandbits(1)
-            if case.get("scenario") == "slow_target":
+            if case.get("scenario") == "soak_burst":
+                resp["ack"] = 1
+                for f in ("err", "rty", "stall"):
+                    if f in afeat:
+                        resp[f] = 0
+            if case.get("scenario") == "soak_unanswered":
+                if c == 0:
+                    st["silent"] = 66300
+            if case.get("scenario") in ("slow_target", "soak_unanswered"):
                 if st.get("silent", 0) > 0:
                     st["silent"] -= 1
                     resp["ack"] = 0
